@@ -640,8 +640,11 @@ func genE2EV2(r *rand.Rand, n int, tier, profile string) []string {
 		if profile == "c03" {
 			for len(hot) < 2 {
 				f := genCmpDense(r, profile)
-				if r.Intn(3) == 0 {
+				switch r.Intn(4) {
+				case 0:
 					f = genBool(r, 1, profile, true)
+				case 1:
+					f = genCmp(r, profile) // any column, sparse ones included
 				}
 				hot = append(hot, f)
 			}
